@@ -78,8 +78,6 @@ fcppt::container::tree::object<T> &fcppt::container::tree::object<
 
   this->value_ = _other.value_;
 
-  this->parent_ = nullptr;
-
   this->children_ = this->copy_children(_other.children_);
 
   return *this;
